@@ -66,8 +66,8 @@ type world struct {
 	realMode bool
 	// real mode: the harness' own book-keeping of what is queued / in flight, only used to tell the known
 	// finding from other differences
-	shQueued     map[int]map[int]bool
-	shFlight     map[int]bool
+	shQueued     map[int]map[int]int // tag -> prefix -> how often queued
+	shFlight     map[int]int
 	shFlightP    uint32
 	shPid        map[int]uint32 // path identifier of the path last queued with a tag
 	actedBlocked bool
@@ -196,9 +196,9 @@ func (s shim) AddPath(pfx *bnet.Prefix, p *route.Path) error {
 	if w.realMode {
 		t := tagOfPath(p)
 		if w.shQueued[t] == nil {
-			w.shQueued[t] = map[int]bool{}
+			w.shQueued[t] = map[int]int{}
 		}
-		w.shQueued[t][x] = true
+		w.shQueued[t][x]++
 		w.shPid[t] = p.BGPPath.PathIdentifier
 	}
 	w.log(fmt.Sprintf("A%d:%d:%d", x, tagOfPath(p), p.BGPPath.PathIdentifier))
@@ -221,11 +221,11 @@ func (s shim) RemovePath(pfx *bnet.Prefix, p *route.Path) bool {
 		}
 	}
 	if w.realMode {
-		if w.shFlight[x] && w.shFlightP == k.pid {
+		if w.shFlight[x] > 0 && w.shFlightP == k.pid {
 			w.overtaken[k] = true
 		}
 		for tag, set := range w.shQueued {
-			if w.wpid(w.pidOfTag(tag)) == k.pid && set[x] {
+			if w.wpid(w.pidOfTag(tag)) == k.pid && set[x] > 0 {
 				w.hitPending = true
 				delete(set, x)
 			}
@@ -425,7 +425,7 @@ func (w *world) realRun(groups [][]string) (stalled error, err error) {
 				if len(w.shFlight) == 0 { // a new batch: everything queued under the key is in flight now
 					w.shFlight, w.shFlightP = w.shQueued[tag], w.wpid(w.pidOfTag(tag))
 					if w.shFlight == nil {
-						w.shFlight = map[int]bool{}
+						w.shFlight = map[int]int{}
 					}
 					delete(w.shQueued, tag)
 				}
@@ -442,7 +442,11 @@ func (w *world) realRun(groups [][]string) (stalled error, err error) {
 			w.log("E")
 			if u != nil {
 				for _, n := range u.Announced {
-					delete(w.shFlight, int(n.P.Idx))
+					if x := int(n.P.Idx); w.shFlight[x] > 1 {
+						w.shFlight[x]--
+					} else {
+						delete(w.shFlight, x)
+					}
 				}
 			}
 		}
@@ -647,7 +651,7 @@ func (w *world) execOps(ops []string) error {
 
 func exec(t tcase) (*world, error) {
 	w := &world{cfg: t.cfg, ribMode: t.ribMode, realMode: t.realMode, shapes: t.shapes, table: map[key]int{},
-		pfxIdx: map[string]int{}, overtaken: map[key]bool{}, shQueued: map[int]map[int]bool{}, shPid: map[int]uint32{}}
+		pfxIdx: map[string]int{}, overtaken: map[key]bool{}, shQueued: map[int]map[int]int{}, shPid: map[int]uint32{}}
 	if t.realMode {
 		g := usx.NewGate()
 		w.cap = g
